@@ -91,6 +91,7 @@ func execHist(a []string) (string, string) {
 	var tr *bmc.V2SessionlessTransport
 	var slScript []string
 	slCancelInSleep := false
+	slCancelNext = nil
 	slPos := 0
 	var slCancel context.CancelFunc
 	recv := make([]byte, 512)
@@ -198,9 +199,9 @@ func execHist(a []string) (string, string) {
 	slSend := func(_ context.Context, p []byte) ([]byte, error) {
 		sendCalls++
 		if slCancelInSleep && slPos == len(slScript)-1 {
-			// the last scripted attempt: the caller gives up 15 ms from now, i.e. during the 60 ms back-off sleep that follows
-			c := slCancel
-			time.AfterFunc(15*time.Millisecond, func() { c() })
+			// the last scripted attempt: the caller gives up during the back-off sleep that follows it — made deterministic
+			// by ending the context at the very moment the back-off policy is asked for that interval (no timer involved)
+			slCancelNext = slCancel
 		}
 		if slPos >= len(slScript) {
 			slCancel()
@@ -333,8 +334,15 @@ func execHist(a []string) (string, string) {
 // switchBackOff: no waiting normally; a 60 ms interval while a "cancelled during the back-off sleep" command runs
 type switchBackOff struct{ on *bool }
 
+// slCancelNext, when set, is the caller's cancel function to be invoked when the policy is next asked for an interval
+var slCancelNext context.CancelFunc
+
 func (b *switchBackOff) NextBackOff() time.Duration {
 	if *b.on {
+		if slCancelNext != nil {
+			slCancelNext()
+			slCancelNext = nil
+		}
 		return 60 * time.Millisecond
 	}
 	return 0
